@@ -416,8 +416,15 @@ func DiffSigs(want, got interface{}) []string {
 				}
 				rec(x, y, k)
 			}
-			for k := range gv {
+			for k, y := range gv {
 				if _, ok := wv[k]; !ok {
+					// an unrequested subtree that holds nothing but helper fields is reported as those helpers
+					if hs := helperLeaves(y); len(hs) > 0 && keyClass(k) == "<field>" {
+						for h := range hs {
+							set["diff:EXTRA "+h] = true
+						}
+						continue
+					}
 					set["diff:EXTRA "+keyClass(k)] = true
 				}
 			}
@@ -498,4 +505,41 @@ func respKey(f *ast.Field) string {
 		return f.Alias
 	}
 	return f.Name
+}
+
+// helperLeaves returns the helper key names (id, __typename) that make up all scalar leaves
+// of v, or nil if v holds any other leaf (or no leaf at all).
+func helperLeaves(v interface{}) map[string]bool {
+	out := map[string]bool{}
+	ok := true
+	var rec func(x interface{}, key string)
+	rec = func(x interface{}, key string) {
+		switch t := x.(type) {
+		case map[string]interface{}:
+			for k, y := range t {
+				rec(y, k)
+			}
+		case []interface{}:
+			for _, y := range t {
+				rec(y, key)
+			}
+		case nil:
+		default:
+			if key == "id" || key == "__typename" {
+				out[key] = true
+			} else {
+				ok = false
+			}
+		}
+	}
+	switch v.(type) {
+	case map[string]interface{}, []interface{}:
+		rec(v, "")
+	default:
+		return nil
+	}
+	if !ok || len(out) == 0 {
+		return nil
+	}
+	return out
 }
